@@ -39,7 +39,9 @@ ASSUME = [
 ]
 RULE = ("quick 700 / thorough 10000 cases.  seeded generation: histories of 1-6 revisions (linear, branched, merges, several bases, depends_on), upgrade ranges "
         "start:end (start = base or a revision, end = revision/head(s)/+N) and downgrade ranges from:to (to = base, ancestor, -N); "
-        "bodies over create_table/drop_table/add_column/create_index/drop_index/bulk_insert/execute with values from "
+        "bodies over create_table/drop_table/add_column/create_index/drop_index/bulk_insert/execute (columns with and without "
+        "server defaults; bulk rows with explicit None, with omitted keys, and ragged key sets under multiinsert=False; execute "
+        "literals with colons and backslash-colon escapes) with values from "
         "{quotes, backslashes, NULL, unicode, ints, big ints, decimals, floats, dates, datetimes, booleans, ';', newlines, "
         "%(x)s, :name, ?}; ~5% bodies with an inapplicable statement.  non-trivial = at least one step ran and at least one row "
         "was inserted; distinct by the encoded input")
@@ -271,9 +273,15 @@ def gen_history(rnd, tier, tabs=False, invalid=False):
         def rows_for(cols, execonly=False):
             keys = [c for c in cols if rnd.random() < 0.85] or cols[:1]
             rows = []
-            for _ in range(rnd.choice([0, 1, 1, 2, 3, 5]) if not execonly else 1):
+            # ragged: the row dicts do not all carry the same keys (a later row omits a column an earlier one gave);
+            # such a list is inserted with multiinsert=False (online executemany needs one key set)
+            ragged = (not execonly) and len(keys) > 1 and rnd.random() < 0.4
+            for _ in range(rnd.choice([0, 1, 1, 2, 3, 5] if not ragged else [2, 3, 4, 5]) if not execonly else 1):
                 row = {}
-                for c, ty, dflt in keys:
+                rkeys = keys
+                if ragged and rows:
+                    rkeys = [c for c in keys if rnd.random() < 0.6] or [rnd.choice(keys)]
+                for c, ty, dflt in rkeys:
                     if execonly:
                         if ty in (T_STR, T_TEXT):
                             v = rnd.choice(EXEC_TEXTS)
@@ -287,7 +295,8 @@ def gen_history(rnd, tier, tabs=False, invalid=False):
                             v = None           # explicit None for a column that has a server default
                     row[str(c)] = v
                 rows.append(row)
-            return keys, rows
+            multi = False if len(set(tuple(sorted(r)) for r in rows)) > 1 else (rnd.random() < 0.7)
+            return keys, rows, multi
 
         for _ in range(rnd.choice([1, 1, 2])):
             t = ctr["t"]
@@ -303,8 +312,8 @@ def gen_history(rnd, tier, tabs=False, invalid=False):
             t, cols = rnd.choice(targets)
             r = rnd.random()
             if r < 0.40:
-                keys, rows = rows_for(cols)
-                up.append(["bi", t, [[c, ty] for c, ty, _ in keys], rows])
+                keys, rows, multi = rows_for(cols)
+                up.append(["bi", t, [[c, ty] for c, ty, _ in keys], rows, multi])
             elif r < 0.55:
                 c = new_cols(1)[0]
                 up.append(["ac", t, c])
@@ -318,7 +327,7 @@ def gen_history(rnd, tier, tabs=False, invalid=False):
                 up.append(["ci", ix, t, [c[0] for c in ic]])
                 own_ix.append([ix, t])
             elif r < 0.84:
-                keys, rows = rows_for(cols, execonly=True)
+                keys, rows, _multi = rows_for(cols, execonly=True)
                 if rnd.random() < 0.6:
                     up.append(["xi", t, rows[0]])
                 elif rnd.random() < 0.7:
@@ -339,8 +348,8 @@ def gen_history(rnd, tier, tabs=False, invalid=False):
         if anc_tabs and rnd.random() < 0.5:
             t, cols = rnd.choice(anc_tabs)
             if rnd.random() < 0.6:
-                keys, rows = rows_for(cols)
-                dn.append(["bi", t, [[c, ty] for c, ty, _ in keys], rows])
+                keys, rows, multi = rows_for(cols)
+                dn.append(["bi", t, [[c, ty] for c, ty, _ in keys], rows, multi])
             else:
                 dn.append(["xd", t])
         for ix, it in own_ix:
@@ -541,7 +550,8 @@ def op_src(o):
     if k == "bi":
         tab = "sa.table(%r, %s)" % (tname(o[1]), ", ".join("sa.column(%r, %s)" % (cname(c), TYPES[ty]) for c, ty in o[2]))
         rows = "[" + ", ".join("{" + ", ".join("%r: %s" % (cname(int(c)), py_src(v)) for c, v in row.items()) + "}" for row in o[3]) + "]"
-        return "op.bulk_insert(%s, %s)" % (tab, rows)
+        multi = o[4] if len(o) > 4 else True
+        return "op.bulk_insert(%s, %s%s)" % (tab, rows, "" if multi else ", multiinsert=False")
     if k == "xi":
         return "op.execute(%r)" % ("INSERT INTO %s (%s) VALUES (%s)" % (
             tname(o[1]), ", ".join(cname(int(c)) for c in o[2]), ", ".join(o[2].values())))
